@@ -134,7 +134,7 @@ func loadProgram(repo string, spec *CheckSpec, overlay map[string][]byte) (*Prog
 }
 
 var initAllow = map[string]bool{
-	"errors": true, "io": true, "bufio": true, "bytes": true, "strings": true, "strconv": true,
+	"io": true, "bufio": true, "bytes": true, "strings": true, "strconv": true,
 	"unicode/utf8": true, "math/bits": true, "slices": true, "cmp": true, "sort": true, "math": true,
 	"maps": true, "iter": true, "internal/itoa": true, "internal/stringslite": true,
 }
